@@ -157,12 +157,21 @@ def c07(tier, seed):
 
 @prop("C08")
 def c08(tier, seed):
-    return _simple_api("C08", tier, seed, "hmacs_compared",
-                       "messages of every length 0..600 (thorough 0..2100) x 3 hashes x start position {0,1,48,len} x keys "
-                       "(random, all-zero, all-ff): gethmac vs RFC 2104 HMAC from libcrypto; cmphmac must accept the right tag and "
-                       "reject single-bit variants (all 8*hlen bits on a subset); generated files for T=1..16: tag at [10,10+hlen) == "
-                       "HMAC(key, file[48:]), zero fill to 48; distinct = (hash, inner length mod 64, position kind) and file classes",
-                       5000)
+    chk = Check("C08", tier, seed)
+    chk.assumptions = ASSUME_API
+    variants = QUICK_V if tier == "quick" else [(4, 4), (1, 1), (8, 16)]
+    c, d, s = apiprops.run_api(chk, "C08", variants)
+    c2, d2, s2 = apiprops.run_api(chk, "C08", [(None, None)], san="fast", extra_args=["--sub", "large"], stall_s=300.0)
+    _acc(c, c2)
+    d["class"] = d.get("class", 0) + d2.get("class", 0)
+    extra = dict(counters=c, distinct_by_kind=d, chunk_variants=["chunk %dB / refill %dB" % (b * 16, h * 64) for b, h in variants] + ["production constants, span 2^29"])
+    return chk.finish(c.get("hmacs_compared", 0), d.get("class", 0),
+                      "messages of every length 0..600 (thorough 0..2100) x 3 hashes x start position {0,1,48,len} x keys "
+                      "(random, all-zero, all-ff): gethmac vs RFC 2104 HMAC from libcrypto; cmphmac must accept the right tag and "
+                      "reject single-bit variants (all 8*hlen bits on a subset) and multi-byte variants; one hmac object reused across "
+                      "hash modes; generated files for T=1..16: tag at [10,10+hlen) == HMAC(key, file[48:]), zero fill to 48; spans of "
+                      "2^29-64 (+57) bytes with production constants; distinct = (hash, inner length mod 64, position kind) and file classes",
+                      s + s2[:2], extra, min_evaluations=5000)
 
 
 @prop("C09")
